@@ -75,7 +75,7 @@ fn contains(hay: &[u8], needle: &[u8]) -> bool {
 }
 
 /// soundness of one record against the true sample sequences; returns the planted segment it corresponds to
-fn judge_record(c: &IndelCase, r: &lo::IndelRecord) -> Result<Option<usize>, String> {
+pub fn judge_record(c: &IndelCase, r: &lo::IndelRecord) -> Result<Option<usize>, String> {
     let n = c.n();
     if r.gts.len() != n {
         return Err(format!("{} genotype columns for {n} samples", r.gts.len()));
